@@ -43,6 +43,7 @@ import (
 	"github.com/nuts-foundation/nuts-node/core"
 	nutsCrypto "github.com/nuts-foundation/nuts-node/crypto"
 	"github.com/nuts-foundation/nuts-node/crypto/hash"
+	"github.com/nuts-foundation/nuts-node/jsonld"
 	"github.com/sirupsen/logrus"
 	"pgregory.net/rapid"
 	"verif.local/h"
@@ -65,6 +66,52 @@ type c14Beh struct {
 	Fail int    `json:"f,omitempty"`
 	Inc  int    `json:"i,omitempty"`
 	End  string `json:"e"` // ok | fatal | never
+	// Shape: how the subscriber hands its error over (ordinary and fatal ones alike). "" bare (vdr / vcr ambassadors:
+	// `dag.EventFatal{Err: err}`), w1 wrapped once with %w (network/transport/v2 handlePrivateTxRetry:
+	// `fmt.Errorf("failed to decrypt PAL header (tx=%s): %w", ref, dag.EventFatal{Err: err})`), w2 wrapped twice,
+	// join / joinfirst: errors.Join with a second, unrelated error after / before it. A fatal answer is whatever
+	// errors.As(err, new(EventFatal)) recognises, as both Notify and Run decide.
+	Shape string `json:"sh,omitempty"`
+	// Text: what the error is about. "" an ordinary failure; ctx: a JSON-LD context that is not on the allow list (the
+	// error chain ends in jsonld.ContextURLNotAllowedErr, so does the text unless the shape appends something); ctxmid: the
+	// same cause with text following it (the recorded text contains the phrase without ending in it).
+	Text string `json:"tx,omitempty"`
+}
+
+// c14UnknownCtx: the start-up replay leaves jobs alone whose recorded last error ends in this phrase (Run: "Do not retry
+// events that previously failed on an unknown context", issue 2569). They stay on the shelf; nothing else is exempt.
+func c14UnknownCtx(lastError string) bool {
+	return strings.HasSuffix(lastError, jsonld.ContextURLNotAllowedErr.Error())
+}
+
+// err builds the error of an answer "err" / "fatal".
+func (b c14Beh) err(resp string) error {
+	var e error
+	switch b.Text {
+	case "ctx":
+		e = fmt.Errorf("verif: loading document failed: %w", jsonld.ContextURLNotAllowedErr)
+	case "ctxmid":
+		e = fmt.Errorf("%w (verif: while expanding the credential)", jsonld.ContextURLNotAllowedErr)
+	default:
+		e = errC14Fail
+		if resp == "fatal" {
+			e = errC14Fatal
+		}
+	}
+	if resp == "fatal" {
+		e = EventFatal{e}
+	}
+	switch b.Shape {
+	case "w1":
+		return fmt.Errorf("verif: handling event: %w", e)
+	case "w2":
+		return fmt.Errorf("verif: subscriber: %w", fmt.Errorf("verif: handling event: %w", e))
+	case "join":
+		return errors.Join(errors.New("verif: releasing resources failed"), e)
+	case "joinfirst":
+		return errors.Join(e, errors.New("verif: releasing resources failed"))
+	}
+	return e
 }
 
 func (b c14Beh) at(n int) string {
@@ -115,7 +162,7 @@ func (s c14Sub) beh(tx int) c14Beh {
 	b := s.Beh[tx%len(s.Beh)]
 	if s.Slow {
 		if b.End != "ok" && b.End != "fatal" {
-			b = c14Beh{Fail: c14SlowCalls, End: "ok"}
+			b = c14Beh{Fail: c14SlowCalls, End: "ok", Shape: b.Shape, Text: b.Text}
 		}
 		if b.Fail > c14SlowCalls {
 			b.Fail = c14SlowCalls
@@ -165,6 +212,16 @@ type c14Case struct {
 }
 
 func c14GenBeh(t *rapid.T) c14Beh {
+	b := c14GenBehCalls(t)
+	if b.Fail > 0 || b.End != "ok" {
+		// the error the subscriber answers with: its shape (bare / wrapped / joined) and what it is about
+		b.Shape = rapid.SampledFrom([]string{"", "", "", "w1", "w1", "w1", "w2", "join", "joinfirst"}).Draw(t, "errshape")
+		b.Text = rapid.SampledFrom([]string{"", "", "", "", "", "ctx", "ctx", "ctxmid"}).Draw(t, "errtext")
+	}
+	return b
+}
+
+func c14GenBehCalls(t *rapid.T) c14Beh {
 	switch rapid.SampledFrom([]string{"ok", "ok", "ok", "ok", "fail", "fail", "inc", "inc", "mixed", "fatal", "fatal", "never", "never", "late", "edge", "edge"}).Draw(t, "beh") {
 	case "fail":
 		return c14Beh{Fail: rapid.IntRange(1, 6).Draw(t, "f"), End: "ok"}
@@ -420,6 +477,7 @@ type c14Call struct {
 	Retries int
 	Resp    string // ok | err | inc | fatal
 	N       int    // call number of the pair over all incarnations
+	ErrText string        // text of the error answered (Resp err / fatal)
 	At      time.Duration // start of the call (monotonic, since the world was created)
 	Bad     string        // what is wrong with the event handed over, if anything
 }
@@ -557,8 +615,12 @@ func (w *c14World) receiver(inc *c14Inc, si int) ReceiverFn {
 		n := w.calls[p]
 		inc.calls[p]++
 		resp, bad := "ok", ""
+		var respErr error
 		if known {
 			resp = w.c.Subs[si].beh(ti).at(n)
+			if resp == "err" || resp == "fatal" {
+				respErr = w.c.Subs[si].beh(ti).err(resp)
+			}
 			switch {
 			case ev.Transaction == nil || !ev.Transaction.Ref().Equals(ev.Hash):
 				bad = "transaction"
@@ -570,7 +632,7 @@ func (w *c14World) receiver(inc *c14Inc, si int) ReceiverFn {
 				bad = "payload-not-stored"
 			}
 		}
-		w.ledger = append(w.ledger, c14Call{Seq: len(w.ledger), Inc: inc.n, Sub: si, Tx: ti, Type: ev.Type, Retries: ev.Retries, Resp: resp, N: n, At: at, Bad: bad})
+		w.ledger = append(w.ledger, c14Call{Seq: len(w.ledger), Inc: inc.n, Sub: si, Tx: ti, Type: ev.Type, Retries: ev.Retries, Resp: resp, N: n, At: at, Bad: bad, ErrText: fmt.Sprint(respErr)})
 		// a loop far beyond what any correct run can produce: stop waiting for it, the ledger checks name the cause.
 		// Slow subscribers answer at most c14SlowCalls times without a final answer, then once with it, plus once per
 		// restart (two restarts): more calls than that always include one after a completion / fatal answer.
@@ -631,10 +693,11 @@ func (w *c14World) receiver(inc *c14Inc, si int) ReceiverFn {
 			return true, nil
 		case "inc":
 			return false, nil
-		case "fatal":
-			return false, EventFatal{errC14Fatal}
 		}
-		return false, errC14Fail
+		if respErr == nil { // (a transaction nobody submitted answers ok above)
+			respErr = errC14Fail
+		}
+		return false, respErr
 	}
 }
 
@@ -1031,8 +1094,11 @@ func (w *c14World) rawShelves(inc *c14Inc) map[string]string {
 func (w *c14World) refuse(inc *c14Inc, op c14Op) {
 	cause := c14RefusalCauses[int(op.Sel)%len(c14RefusalCauses)]
 	w.waitQuiet("before refusal", nil)
-	if len(w.x.Violations()) > 0 {
-		return
+	w.mu.Lock()
+	ra := w.runaway
+	w.mu.Unlock()
+	if len(w.x.Violations()) > 0 || ra {
+		return // (a run-away retry loop is still writing to its shelf; checkLedger reports it)
 	}
 	before := w.rawShelves(inc)
 	payload := false
@@ -1366,6 +1432,9 @@ func (w *c14World) callsOf(p c14Pair) []c14Call {
 func (w *c14World) checkStop(inc2 *c14Inc, stopSeq int) {
 	w.mu.Lock()
 	defer w.mu.Unlock()
+	if w.runaway {
+		return // the receiver of a run-away loop was made to answer "done" to end it; checkLedger reports the loop
+	}
 	w.persistentPairs(func(p c14Pair, a c14Adm) {
 		if _, pending := inc2.start[p.Sub][c14Ev{p.Tx, p.Type}]; pending {
 			return
@@ -1411,6 +1480,18 @@ func (w *c14World) checkVisible(inc *c14Inc, when string) {
 	}
 }
 
+// listedAsFailed tells whether GetFailedEvents of the pair's subscriber lists the pair's event.
+func (w *c14World) listedAsFailed(inc *c14Inc, p c14Pair) bool {
+	failed, err := inc.nots[p.Sub].GetFailedEvents()
+	w.x.NoErr(err, "GetFailedEvents")
+	for _, f := range failed {
+		if f.Type == p.Type && f.Hash.Equals(w.txs[p.Tx].Tx.Ref()) {
+			return true
+		}
+	}
+	return false
+}
+
 // checkFixedPoint: nothing runs any more. Every (admitted event, selecting persistent subscriber) is then either completed
 // (receiver reported completion, job gone) or its job is still there with the retry budget spent / a fatal error recorded,
 // and visible as failed.
@@ -1450,6 +1531,10 @@ func (w *c14World) checkFixedPoint(inc *c14Inc) {
 		if hit {
 			budget-- // one attempt went by without its retry count being recorded / without reaching the receiver
 		}
+		// a job this incarnation found at its start with an unknown-context error as last error, and has not called since:
+		// the start-up replay leaves it alone by design; it only has to stay where it is
+		startJob, atStart := inc.start[p.Sub][c14Ev{p.Tx, p.Type}]
+		leftAlone := inc.n > 1 && atStart && c14UnknownCtx(startJob.Error) && inc.calls[p] == 0
 		switch {
 		case len(calls) == 0 && a.Inc == inc.n:
 			// (an event admitted by an earlier incarnation: lost at the stop -> checkStop, pending but not replayed -> checkLedger)
@@ -1462,12 +1547,22 @@ func (w *c14World) checkFixedPoint(inc *c14Inc) {
 		case pending && okSeen && last.Resp == "ok" && last.Inc == inc.n:
 			w.viol("completed-still-pending", "incarnation %d: subscriber %d reported completion of %s event of transaction %d but the job is still in the shelf (retries %d)",
 				inc.n, p.Sub, p.Type, p.Tx, job.Retries)
+		case pending && leftAlone:
+			w.x.Class("unknown-context-job-left-alone-by-restart")
+		case pending && last.Inc == inc.n && last.Resp == "fatal" && !w.listedAsFailed(inc, p):
+			// "reports a fatal error ... an undelivered event stays visible as failed rather than vanishing": the subscriber
+			// gave the event up for good, nothing will retry it, so the failed-events listing is the only place left to see it
+			w.viol("fatal-event-not-visible", "incarnation %d: subscriber %d answered the %s event of transaction %d with a fatal error (call %d), the job is pending with %d retries but GetFailedEvents does not list it",
+				inc.n, p.Sub, p.Type, p.Tx, last.N, job.Retries)
 		case pending && job.Retries < budget:
 			w.viol("retry-stopped-early:"+last.Resp, "incarnation %d: nothing runs any more but the job of subscriber %d for %s event of transaction %d has %d retries (< budget %d), last response %s (%d calls)",
 				inc.n, p.Sub, p.Type, p.Tx, job.Retries, maxRetries, last.Resp, len(calls))
 		case pending && last.Inc == inc.n && last.Resp != "ok":
 			// Event.Error: "contains the error of the last try if any"
-			want := map[string]string{"err": errC14Fail.Error(), "fatal": errC14Fatal.Error(), "inc": errEventIncomplete.Error()}[last.Resp]
+			want := last.ErrText
+			if last.Resp == "inc" {
+				want = errEventIncomplete.Error()
+			}
 			if job.Error != want {
 				w.viol("last-error-not-recorded:"+last.Resp, "incarnation %d: job of subscriber %d for transaction %d records error %q, the last try answered %q", inc.n, p.Sub, p.Tx, job.Error, want)
 			}
@@ -1572,7 +1667,7 @@ func (w *c14World) checkLedger() {
 	for _, inc := range w.incs[1:] {
 		for si, jobs := range inc.start {
 			for e, j := range jobs {
-				if e.Tx < 0 || j.Retries >= maxRetries {
+				if e.Tx < 0 || j.Retries >= maxRetries || c14UnknownCtx(j.Error) {
 					continue
 				}
 				if count[key{c14Pair{si, e.Tx, e.Type}, inc.n}] == 0 {
@@ -1622,8 +1717,26 @@ func (w *c14World) classify(p c14StopPlan, stopSeq int) {
 		return "2..17"
 	}
 	for _, jobs := range inc2.start {
+		owed, ctx := 0, 0
 		for _, j := range jobs {
 			x.Class("restart-finds-job-with-recorded-attempts=" + bucket(j.Retries))
+			switch {
+			case c14UnknownCtx(j.Error):
+				ctx++
+				x.Class("restart-finds-job-with-last-error:unknown-context")
+			case j.Error == "":
+				x.Class("restart-finds-job-with-last-error:none")
+			case strings.Contains(j.Error, jsonld.ContextURLNotAllowedErr.Error()):
+				x.Class("restart-finds-job-with-last-error:unknown-context-not-at-end")
+			default:
+				x.Class("restart-finds-job-with-last-error:other")
+			}
+			if !c14UnknownCtx(j.Error) && j.Retries < maxRetries {
+				owed++
+			}
+		}
+		if ctx > 0 && owed > 0 {
+			x.Class("restart-finds-unknown-context-job-next-to-owed-job-on-one-shelf")
 		}
 	}
 	if p.Kind == "receiver" && p.Trig != nil {
@@ -1646,6 +1759,18 @@ func (w *c14World) classify(p c14StopPlan, stopSeq int) {
 		}
 		for _, c := range calls {
 			seen[c.Resp] = true
+			if c.Resp == "fatal" || c.Resp == "err" {
+				b := w.c.Subs[pp.Sub].beh(pp.Tx)
+				shape, text := b.Shape, b.Text
+				if shape == "" {
+					shape = "bare"
+				}
+				if text == "" {
+					text = "plain"
+				}
+				x.Class("answer:" + c.Resp + ":" + shape)
+				x.Class("answer-text:" + c.Resp + ":" + text)
+			}
 		}
 		if len(calls) >= maxRetries {
 			x.Class("budget-spent")
